@@ -8,7 +8,7 @@ from vf.props import sess_common
 
 def run(ctx):
     ctx.rule = (
-        "TLC: OnePerMessage, CameraConcat, ImgKeysUnique on Session.tla; families on the real APIClient: all 21 state types with one and two "
+        "TLC: OnePerMessage, CameraConcat, ImgKeysUnique on Session.tla; families on the real APIClient: TLC-generated histories (one per distinct state of a bounded instance, shortest first); all 21 state types with one and two "
         "subscribers, ALL interleavings of two cameras' three-chunk streams (+ empty chunks, a second image), unsubscribe at every point of a "
         "stream for every subscription family that has an unsubscribe, voice-assistant handler outcomes {port, none, pending} x audio x "
         "unsubscribe at every point x every gap, random histories; callback rows carry model type, key, value check against the sent message, "
@@ -18,7 +18,8 @@ def run(ctx):
     ctx.tlc("MC_Session", "MC_Session_subs.cfg", coverage=not ctx.quick, timeout=3000)
     sysf = [(sess_common.CFGS[i % 2], s) for i, s in enumerate(sessionsim.c17_systematic(rng, ctx.quick))]
     rnd = [(rng.choice(sess_common.CFGS), sessionsim.c17_random(rng, rng.randrange(3, 16))) for _ in range(800 if ctx.quick else 20000)]
-    sess_common.run_families(ctx, {"subs_systematic": sysf, "subs_random": rnd})
+    tlcf = sess_common.tlc_histories(ctx, "MC_Session_subs_gen.cfg", 1500 if ctx.quick else None, rng)
+    sess_common.run_families(ctx, {"subs_tlc": tlcf, "subs_systematic": sysf, "subs_random": rnd})
     ctx.assumptions += [
         "the model class expected for each state message is a literal table in the harness (written from the API documentation)",
         "values: the callback's model must equal the conversion of the message that was sent with that key (conversion itself is C14's business)",
